@@ -179,7 +179,8 @@ def run(ctx) -> None:
             okd = False
             msgs.append("dispatch not conditional on the match result")
         # both paths collected
-        apps = [e for e in calls if e.extra.get("func") == "paths.append"]
+        plist = (mcall[0].extra.get("args") or ["paths"])[0]
+        apps = [e for e in calls if e.extra.get("func") == f"{plist}.append"]
         has_dest = c.get("hasattr(event, 'dest_path')")
         has_src = c.get("event.src_path")
         got = [(a.extra.get("args") or [""])[0] for a in apps]
